@@ -15,30 +15,32 @@ from hypothesis import strategies as st
 from vlib import rngctl  # noqa: F401
 from vlib import refkernels as rk, gpcases as gc, numdiff
 from vlib.core import Sub, Violation, Inconclusive
-from inference.gp import GpRegressor, GpOptimiser, ExpectedImprovement, UpperConfidenceBound, MaxVariance, SquaredExponential, RationalQuadratic
+from inference.gp import GpRegressor, GpOptimiser, ExpectedImprovement, UpperConfidenceBound, MaxVariance, SquaredExponential, RationalQuadratic, WhiteNoise, HeteroscedasticNoise
 
 mp.mp.dps = 50
 EPS = np.finfo(float).eps
-RULE = ("(a) (mu, sigma, y_max) with z from -1e6 to 1e6, sigma over 1e-12..1e6; (b) SquaredExponential regressors in d=1..3 with "
+RULE = ("(a) (mu, sigma, y_max) with z from -1e9 to 1e6 and non-zero spatial derivatives of the predictive mean / variance, sigma over 1e-12..1e6; (b) SquaredExponential regressors in d=1..3 with "
         "queries on both sides of z=-3; (c) histories of propose(bfgs|diffev) / add_evaluation(x as scalar|1-D|(1,d), y[, err]); "
         "non-trivial = (a) |z| > 3, (b) z < -3 or d >= 2, (c) a history with >= 2 adds and >= 1 proposal")
-ASSUMPTIONS = ["|z| <= 1e6 (beyond about -1e7 the tail formula 1 + z*R(z) cancels completely; outside the quantified range)",
-               "log-EI tolerance 1e-12*max(1,|log EI|) + 64*eps*z^2 (the cancellation in 1 + z*R(z) is inherent to float64)"]
+ASSUMPTIONS = ["|z| <= 1e9",
+               "log-EI tolerance 1e-12*max(1,|log EI|) + 1e-11 (an earlier version added 64*eps*z^2, 'the cancellation in 1 + z*R(z) is inherent "
+               "to float64': it is inherent to that way of writing the tail factor, not to the quantity)"]
 
 
 class StubGP:
     """duck-typed regressor state: predictive mean / sd are whatever the case says"""
 
-    def __init__(self, mu, sig, y_max):
+    def __init__(self, mu, sig, y_max, dmu=0.0, dvar=0.0):
         self.mu, self.sig = float(mu), float(sig)
         self.y = np.array([y_max - 1.0, y_max])
         self.x = np.zeros((2, 1))
+        self.dmu, self.dvar = float(dmu), float(dvar)
 
     def __call__(self, x):
         return np.array([self.mu]), np.array([self.sig])
 
     def spatial_derivatives(self, x):
-        return np.array([0.0]), np.array([0.0])
+        return np.array([self.dmu]), np.array([self.dvar])
 
 
 def ref_log_ei(mu, sig, ymax):
@@ -60,13 +62,15 @@ def value_cases(draw):
     elif mode == "neg-tail":
         z = draw(st.floats(-40, -3))
     elif mode == "far-neg":
-        z = -10 ** draw(st.floats(1.5, 6))
+        z = -10 ** draw(st.floats(1.5, 9))
     elif mode == "pos":
         z = 10 ** draw(st.floats(0, 6))
     else:
         z = -3.0 + draw(st.integers(-4, 4)) * 4.440892098500626e-16 * draw(st.sampled_from([1, 1, 1000, 10**6]))
     return {"seed": 0, "mode": mode, "z": z, "log_sig": log_sig, "ymax": ymax,
-            "kappa": draw(st.floats(0, 10)), "exact_z": draw(st.booleans())}
+            "kappa": draw(st.floats(0, 10)), "exact_z": draw(st.booleans()),
+            # spatial derivatives of the predictive mean and variance at the query point, in units of sigma and sigma^2
+            "dmu_u": draw(st.floats(-3, 3)), "dvar_u": draw(st.floats(-3, 3))}
 
 
 def body_values(case, ctx):
@@ -75,7 +79,11 @@ def body_values(case, ctx):
     if case["mode"] == "switch" or case["exact_z"]:
         sig, ymax = 1.0, 0.0  # z == mu exactly
     mu = ymax + case["z"] * sig
-    stub = StubGP(mu, sig, ymax)
+    # (derivatives below a thousandth of the natural unit are taken as exactly zero: products with sigma^2 down to 1e-24 would
+    # otherwise be subnormal numbers, which carry only a few digits themselves)
+    du, dv = (u if abs(u) >= 1e-3 else 0.0 for u in (case.get("dmu_u", 0.0), case.get("dvar_u", 0.0)))
+    dmu, dvar = du * sig, dv * sig * sig
+    stub = StubGP(mu, sig, ymax, dmu, dvar)
     x = np.zeros(1)
     # ---- expected improvement
     ei = ExpectedImprovement()
@@ -88,7 +96,7 @@ def body_values(case, ctx):
         val = float(ei(x))
         neg_ln = float(ei.opt_func(x))
         g_val, g_grad = ei.opt_func_gradient(x)
-    tol = 1e-12 * max(1.0, abs(float(ref_ln))) + 64 * EPS * float(z) ** 2 + 1e-12
+    tol = 1e-12 * max(1.0, abs(float(ref_ln))) + 1e-11
     err = abs(float(mp.mpf(-neg_ln) - ref_ln))
     branch = "tail" if z_impl < -3 else "ordinary"
     ctx.ratio(f"log-EI:{branch}", err, tol)
@@ -96,10 +104,21 @@ def body_values(case, ctx):
         raise Violation(f"ei-log:{branch}", f"z = {float(z)!r}, sigma = {sig!r}: opt_func = {neg_ln!r} but -log E[max(f - y_max, 0)] = {float(-ref_ln)!r} (tol {tol:.3g})")
     if abs(float(g_val) - neg_ln) > 1e-12 * max(1.0, abs(neg_ln)):
         raise Violation(f"ei-gradient-value:{branch}", f"value from opt_func_gradient {float(g_val)!r} vs opt_func {neg_ln!r}")
+    # the spatial gradient of -log EI from the chain rule: dEI/dmu = Phi(z), dEI/dsigma = phi(z), dsigma = dvar / (2 sigma)
+    zz = (mp.mpf(mu) - mp.mpf(ymax)) / mp.mpf(sig)
+    cdf_, pdf_ = mp.erfc(-zz / mp.sqrt(2)) / 2, mp.exp(-zz * zz / 2) / mp.sqrt(2 * mp.pi)
+    parts = [pdf_ * mp.mpf(dvar) / (2 * mp.mpf(sig)) / ref_ei, cdf_ * mp.mpf(dmu) / ref_ei]
+    ref_g = -(parts[0] + parts[1])
+    g_tol = 1e-10 * float(abs(parts[0]) + abs(parts[1])) + 1e-300
+    g_err = abs(float(mp.mpf(float(np.asarray(g_grad).ravel()[0])) - ref_g))
+    ctx.ratio(f"EI-gradient:{branch}", g_err, g_tol)
+    if not np.isfinite(float(np.asarray(g_grad).ravel()[0])) or g_err > g_tol:
+        raise Violation(f"ei-gradient:{branch}", f"z = {float(z)!r}, sigma = {sig!r}, dmu = {dmu!r}, dvar = {dvar!r}: gradient of opt_func {float(np.asarray(g_grad).ravel()[0])!r}, "
+                                                f"chain rule gives {float(ref_g)!r}")
     ref_f = float(ref_ei)
     if ref_f > 1e-290:
         rel = abs(val - ref_f) / ref_f
-        t2 = 1e-12 + 64 * EPS * float(z) ** 2 + 8 * EPS * abs(float(ref_ln))
+        t2 = 1e-11 + 8 * EPS * abs(float(ref_ln))
         ctx.ratio(f"EI:{branch}", rel, t2)
         if not np.isfinite(val) or rel > t2:
             raise Violation(f"ei-value:{branch}", f"z = {float(z)!r}, sigma = {sig!r}: EI = {val!r} but E[max(f - y_max, 0)] = {ref_f!r}")
@@ -284,13 +303,16 @@ def history_cases(draw):
     for _ in range(draw(st.integers(1, 4))):
         ops.append({"op": "propose", "optimizer": draw(st.sampled_from(["bfgs", "bfgs", "diffev", None]))})
         ops.append({"op": "add", "form": draw(st.sampled_from(["scalar", "1d", "2d", "list"])),
-                    "use_proposal": draw(st.booleans()), "x": [draw(st.floats(-2, 2)) for _ in range(d)]})
+                    "use_proposal": draw(st.booleans()), "x": [draw(st.floats(-2, 2)) for _ in range(d)],
+                    # a call that the optimiser documents it rejects (the error of the new value is missing although errors were given
+                    # at construction) before the same evaluation is added properly
+                    "first_without_err": draw(st.integers(0, 5)) == 0})
     return {"seed": draw(st.integers(0, 2**31)), "d": d, "x0": x0, "with_err": draw(st.booleans()),
             "x_dtype": draw(st.sampled_from(["float", "float", "int"])), "y_dtype": draw(st.sampled_from(["float", "float", "int"])),
             "acq": draw(st.sampled_from(["EI", "UCB", "MaxVar"])), "x_form": draw(st.sampled_from(["2d", "1d", "list"])),
             "init_optimizer": draw(st.sampled_from(["bfgs", "bfgs", "diffev"])), "ops": ops,
             "bounds_form": draw(st.sampled_from(["tuples", "lists", "array", "array", "int-array"])),
-            "kernel_form": draw(st.sampled_from(["default", "default", "SE-instance", "RQ-instance", "RQ-class"]))}
+            "kernel_form": draw(st.sampled_from(["default", "default", "SE-instance", "RQ-instance", "RQ-class", "SE+White-instance", "SE+Hetero-instance"]))}
 
 
 def snapshot(a):
@@ -342,9 +364,13 @@ def body_history(case, ctx):
                 kform = case.get("kernel_form", "default")
                 # the rational-quadratic kernel documents that it offers no spatial gradients, so only the gradient-free
                 # proposal optimiser applies to it
-                rq = kform.startswith("RQ")
+                # (nor do sums of kernels: one kernel object then serves every successive regressor, and a heteroscedastic-noise term has
+                # one hyper-parameter per data point, so its parameter count grows with every added evaluation)
+                rq = kform.startswith("RQ") or "+" in kform
                 kkw = {} if kform == "default" else {"kernel": {"SE-instance": SquaredExponential(), "RQ-instance": RationalQuadratic(),
-                                                                "RQ-class": RationalQuadratic}[kform]}
+                                                                "RQ-class": RationalQuadratic,
+                                                                "SE+White-instance": SquaredExponential() + WhiteNoise(),
+                                                                "SE+Hetero-instance": SquaredExponential() + HeteroscedasticNoise()}[kform]}
                 opt = GpOptimiser(x_in, y_in, bounds=bounds, y_err=err_in, acquisition=acq_cls, optimizer="diffev" if rq else case["init_optimizer"], **kkw)
             except np.linalg.LinAlgError:
                 raise Inconclusive("Cholesky failure during hyper-parameter selection")
@@ -389,6 +415,17 @@ def body_history(case, ctx):
                     new_y = np.array(yv) if form == "2d" else yv
                     new_err = (np.array([0.05]) if form != "scalar" else 0.05) if case["with_err"] else None
                     sx, sy, se = snapshot(new_x), snapshot(new_y), snapshot(new_err)
+                    if case["with_err"] and op.get("first_without_err"):
+                        try:
+                            opt.add_evaluation(new_x, new_y)
+                        except ValueError:
+                            ctx.event("rejected-add-then-proper-add")
+                        else:
+                            raise Violation("add-without-error-accepted", "add_evaluation without new_y_err returned although y_err was given at construction")
+                        # the rejected call added nothing
+                        if np.asarray(opt.x).shape[0] != len(model_x) or np.asarray(opt.y).shape[0] != len(model_y) or np.asarray(opt.y_err).shape[0] != len(model_y):
+                            raise Violation("rejected-add-changed-state", f"after a rejected add_evaluation (no new_y_err) the optimiser holds {np.asarray(opt.x).shape[0]} x, "
+                                                                          f"{np.asarray(opt.y).shape[0]} y, {np.asarray(opt.y_err).shape[0]} y_err for {len(model_y)} evaluations")
                     try:
                         opt.add_evaluation(new_x, new_y, new_err) if case["with_err"] else opt.add_evaluation(new_x, new_y)
                     except np.linalg.LinAlgError:
@@ -407,7 +444,10 @@ def body_history(case, ctx):
             raise Violation("data-content", "the regressor's data are not the initial data followed by the added evaluations in order")
         # ... and the model is *fitted* to them: its data covariance is the documented kernel on exactly these points (one kernel
         # object may serve every successive regressor) plus the error variances
-        kspec = {"k": "RQ" if kform.startswith("RQ") else "SE"}
+        kspec = {"SE+White-instance": {"k": "Sum", "parts": [{"k": "SE"}, {"k": "White"}]},
+                 "SE+Hetero-instance": {"k": "Sum", "parts": [{"k": "SE"}, {"k": "Hetero"}]}}.get(kform, {"k": "RQ" if kform.startswith("RQ") else "SE"})
+        if np.asarray(opt.x).shape[0] != len(model_x) or np.asarray(opt.y).shape[0] != len(model_y):
+            raise Violation("data-size", f"the optimiser holds {np.asarray(opt.x).shape[0]} x / {np.asarray(opt.y).shape[0]} y for {len(model_y)} evaluations")
         Kref = rk.ref_build(kspec, gx, np.asarray(opt.gp.cov_hyperpars, dtype=float)) + (np.diag(np.asarray(opt.y_err, dtype=float) ** 2) if case["with_err"] else 0.0)
         Kgot = np.asarray(opt.gp.K_xx, dtype=float)
         if Kgot.shape != Kref.shape or not np.max(np.abs(Kgot - Kref)) <= 1e-9 * np.max(np.abs(Kref)):
